@@ -511,6 +511,16 @@ fn mutate_battery(cf: &mut CompoundFile<MonFile>, rng: &mut Rng, rep: &mut Repor
                             b.set_len(l / 3)?;
                         }
                         b.flush()?;
+                        if rng.chance(1, 2) {
+                            // the stale handle reads on to wherever the data ends, then asks
+                            // where it is and moves relative to that
+                            let mut v = Vec::new();
+                            let _ = (&mut *a).take(1 << 20).read_to_end(&mut v);
+                            let _ = a.stream_position();
+                            let _ = a.seek(SeekFrom::Current(0));
+                            let _ = a.seek(SeekFrom::Current(-1));
+                            let _ = a.seek(SeekFrom::Current(1000));
+                        }
                         a.seek(SeekFrom::Start(0))?;
                         a.write_all(&engine::payload(k + 1, 20))?;
                         a.flush()?;
